@@ -37,6 +37,8 @@ class Contract:
         self.xinv = kw.pop('xinv', True)
         self.frame_props = kw.pop('frame_props', None)
         self.variant = kw.pop('variant', None)
+        self.expect_refuted = kw.pop('expect_refuted', False)   # case split pinned as an open finding
+        self.effects_check = kw.pop('effects_check', [])   # engine routines producing obligations about external calls
         self.native = kw.pop('native', True)            # usable by the run-time monitor
         self.pruning = kw.pop('pruning', True)
         self.ghost_init = kw.pop('ghost_init', None)     # name of an engine routine initialising per-call ghosts
@@ -148,6 +150,11 @@ def typeof(x):
     return type(x)
 
 
+def same_obj(x, y):
+    """x and y are the same container object, where y may be a snapshot copy carrying its origin's identity."""
+    return getattr(x, 'orig_id__', id(x)) == getattr(y, 'orig_id__', id(y))
+
+
 def same(a, b):
     """Identity for objects, equality for immutable scalars."""
     return a is b or (type(a) in (int, str, float, bool, tuple) and type(a) is type(b) and a == b)
@@ -186,5 +193,5 @@ class Old:
 
 
 NATIVE_HELPERS = dict(implies=implies, iff=iff, index_of=index_of, order_of=order_of, key_at=key_at,
-                      is_fresh=is_fresh, same_elems=same_elems, same_dict=same_dict, typeof=typeof, same=same,
+                      is_fresh=is_fresh, same_elems=same_elems, same_dict=same_dict, typeof=typeof, same=same, same_obj=same_obj,
                       is_none=is_none)
